@@ -693,8 +693,8 @@ reg(C14("C14"))
 # ---- C16 / C09 -------------------------------------------------------------------------------------
 class C16(Check):
     rule = DOC_RULE + "; weight on lists ending in blank lines, unclosed fences, HTML blocks, setext headings, definitions followed by text"
-    obligations = [("main", "ReparseAll", "C16_blocks_partial"), ("main", "ReparseAll", "C16_blocks_resync_partial"), ("main", "ReparseAll", "walk_parseBlocks"), ("main", "ReparseRun", "C16_cleanCut_partial"), ("main", "ReparseE2L", "C16_E2_call_all_partial"), ("main", "ReparseLineL", "lineB_all"), ("main", "ReparseDecomp", "line_decomp"), ("main", "ReparseSC", "SC_list"), ("main", "ReparseShift", "shift_line"), ("main", "Reparse", "C16_checked_partial"), ("main", "ReparseEof", "reparse_clean_call_reduce"), ("main", "ReparseLocal", "cutOf_prefix"), ("main", "ReparseDefs", "C16_blocks_literal_refuted"), ("main", "SliceReparse", "C16_reparse_paras"), ("main", "SliceReparse", "C16_two_paragraphs"), ("main", "SliceReparse", "C16_reparse_last"), ("main", "L2BndS", "parseBlocks_bounds"), ("main", "C01a", "C01_ordered"), ("stream", "C14b", "nb_shift")]
-    assumptions = ["the property is proved end to end on a slice only: for any number of one-line text paragraphs separated by a blank line, every root's Source parsed alone gives exactly that root (line 1, offset 0) — up to the model's internal lastLineBlank flag of a root followed by a blank line, which no accessor exposes (SliceReparse.C16_reparse_paras; the literal statement including that flag is refuted, ex_reparse_flag); for general inputs without NUL, at the block layer: every root block that is closed at the position read so far (closed by its own last line or by end of input: ATX headings, thematic breaks, setext headings, closed fences, ended HTML blocks, last roots; the executable condition cleanCut) re-parses to itself including the flag (ReparseRun.C16_cleanCut_partial); for a root cut at the start of the line that closed it the property is reduced to a one-line statement, closing by end of input = closing by that line (ReparseEof.reparse_clean_call_reduce), and that equivalence is proved for paragraphs not beginning with '[', code blocks, HTML blocks, block quotes and lists (ReparseLineL.lineB_all: closing by the following line = closing top-down at the line start, up to the lastLineBlank flag; ReparseSC.SC_list: closing the open spine bottom-up = closeBlock top-down; hence ReparseE2L.C16_E2_call_all_partial / Reparse2.C16_lineCut_partial: such a root re-parses to itself); roots from pending children are reduced to roots of the re-parse of a suffix document (ReparseDecomp.line_decomp, Reparse3.roots_after_lineCut_partial); assembled (ReparseAll.C16_blocks_partial): for every input without NUL, every root for which the executable predicate `covered` holds re-parses alone to itself (up to the internal lastLineBlank flag of the root); `covered` is true of every root except (1) roots that are link reference definitions, (2) roots cut by the following line while a paragraph beginning with '[' is still open on the spine, (3) roots after a cut inside a paragraph holding definitions — where the property's own exception and finding D21s live — and (3) is lifted by a computed re-synchronisation check in C16_blocks_resync_partial; walk_parseBlocks shows the predicate speaks about exactly the roots of the parse; every side condition of the closing equivalence is discharged from whole-run invariants; not proved: (1), (2) and inputs with NUL; the statement with the root's lastLineBlank flag compared literally is refuted ('- a', blank line, 'para': ReparseDefs.C16_blocks_literal_refuted — the flag is internal, no accessor exposes it); besides that what is machine-checked are the supporting invariants (root blocks are cut at ends bounded by the line read; shifting by a blank prefix); the property itself is decided by the re-parse oracle on the implementation and by the full-tree correspondence"]
+    obligations = [("main", "ReparseAll2", "C16_blocks2_partial"), ("main", "ReparseAll2", "C16_blocks2_resync_partial"), ("main", "ReparseOcpLocal", "ocp_local"), ("main", "ReparseOcpLocal", "la_spineEq"), ("main", "ReparseAll2", "covered_covered2"), ("main", "ReparseAll", "C16_blocks_partial"), ("main", "ReparseAll", "C16_blocks_resync_partial"), ("main", "ReparseAll", "walk_parseBlocks"), ("main", "ReparseRun", "C16_cleanCut_partial"), ("main", "ReparseE2L", "C16_E2_call_all_partial"), ("main", "ReparseLineL", "lineB_all"), ("main", "ReparseDecomp", "line_decomp"), ("main", "ReparseSC", "SC_list"), ("main", "ReparseShift", "shift_line"), ("main", "Reparse", "C16_checked_partial"), ("main", "ReparseEof", "reparse_clean_call_reduce"), ("main", "ReparseLocal", "cutOf_prefix"), ("main", "ReparseDefs", "C16_blocks_literal_refuted"), ("main", "SliceReparse", "C16_reparse_paras"), ("main", "SliceReparse", "C16_two_paragraphs"), ("main", "SliceReparse", "C16_reparse_last"), ("main", "L2BndS", "parseBlocks_bounds"), ("main", "C01a", "C01_ordered"), ("stream", "C14b", "nb_shift")]
+    assumptions = ["the property is proved end to end on a slice only: for any number of one-line text paragraphs separated by a blank line, every root's Source parsed alone gives exactly that root (line 1, offset 0) — up to the model's internal lastLineBlank flag of a root followed by a blank line, which no accessor exposes (SliceReparse.C16_reparse_paras; the literal statement including that flag is refuted, ex_reparse_flag); for general inputs without NUL, at the block layer: every root block that is closed at the position read so far (closed by its own last line or by end of input: ATX headings, thematic breaks, setext headings, closed fences, ended HTML blocks, last roots; the executable condition cleanCut) re-parses to itself including the flag (ReparseRun.C16_cleanCut_partial); for a root cut at the start of the line that closed it the property is reduced to a one-line statement, closing by end of input = closing by that line (ReparseEof.reparse_clean_call_reduce), and that equivalence is proved for paragraphs not beginning with '[', code blocks, HTML blocks, block quotes and lists (ReparseLineL.lineB_all: closing by the following line = closing top-down at the line start, up to the lastLineBlank flag; ReparseSC.SC_list: closing the open spine bottom-up = closeBlock top-down; hence ReparseE2L.C16_E2_call_all_partial / Reparse2.C16_lineCut_partial: such a root re-parses to itself); roots from pending children are reduced to roots of the re-parse of a suffix document (ReparseDecomp.line_decomp, Reparse3.roots_after_lineCut_partial); assembled (ReparseAll.C16_blocks_partial): for every input without NUL, every root for which the executable predicate `covered` holds re-parses alone to itself (up to the internal lastLineBlank flag of the root); in its final form (ReparseAll2.C16_blocks2_partial, predicate covered2) exclusion (2) below is gone: onCloseParagraph does not depend on the bytes after the closing position (ReparseOcpLocal.ocp_local: two readers over the same spans on upto Q T and on Q commute for every scanner), so a paragraph beginning with '[' on the spine no longer matters; `covered` is true of every root except (1) roots that are link reference definitions, (2) [first form only] roots cut by the following line while a paragraph beginning with '[' is still open on the spine, (3) roots after a cut inside a paragraph holding definitions — where the property's own exception and finding D21s live — and (3) is lifted by a computed re-synchronisation check in C16_blocks_resync_partial; walk_parseBlocks shows the predicate speaks about exactly the roots of the parse; every side condition of the closing equivalence is discharged from whole-run invariants; not proved: (1) (groundwork: ReparseOcpPrefix: a reader over the entries before a cut vs over all entries) and inputs with NUL; the statement with the root's lastLineBlank flag compared literally is refuted ('- a', blank line, 'para': ReparseDefs.C16_blocks_literal_refuted — the flag is internal, no accessor exposes it); besides that what is machine-checked are the supporting invariants (root blocks are cut at ends bounded by the line read; shifting by a blank prefix); the property itself is decided by the re-parse oracle on the implementation and by the full-tree correspondence"]
 
     def jobs(self, seed, tier):
         cases = [(d, "") for d in docs(seed, tier, quick=3000, thorough=150000)]
